@@ -9,7 +9,7 @@ EXHAUSTIVE = True
 RULE = ('complete enumeration: 35 bids x {undoubled,X,XX} x 4 board vulnerabilities x 4 declarers x '
         '14 trick counts through calc_score(Contract, tricks) (23520 cells), the same grid through '
         'calc_bid_score with the side-vulnerability flag, and both passed-out contract forms x 4 '
-        'vulnerabilities x 14 trick counts; the whole grid is visited three times in different orders (as listed, reversed, strided by the seed) so that a score depending on earlier calls is seen; oracle = Law 77 formula in vf/model/score.py. '
+        'vulnerabilities x 14 trick counts; the whole grid is visited three times in different orders (as listed, reversed, strided by the seed) so that a score depending on earlier calls is seen; oracle = Law 77 formula in vf/model/score.py. Concurrent use: two scorers (contracts that differ only in the declaring side, a passed-out board, a redoubled grand slam) run as kernel tasks with a scheduling point at every source line of the scoring modules on a freshly imported package; all schedules with <= 1 deviation are enumerated, each call must return what it returns alone. '
         'Non-trivial = cell whose board vulnerability is NS or EW (declarer\'s side decides) or a '
         'passed-out cell; '
         'distinct by (bid,dbl,vul,declarer,tricks).')
@@ -17,7 +17,8 @@ ASSUMPTIONS = ['reference scorer vf/model/score.py is the Law 77 formula, writte
 
 
 def plan(tier):
-    return [{'kind': 'grid', 'bids': list(range(b, 35, 5))} for b in range(5)] + [{'kind': 'passed_out'}]
+    return [{'kind': 'grid', 'bids': list(range(b, 35, 5))} for b in range(5)] + [{'kind': 'passed_out'}] + \
+        [{'kind': 'concurrent', 'shard': i, 'of': 4} for i in range(4)]
 
 
 def _cell(bid, dbl, vn, decl, tricks, stats=None):
@@ -59,7 +60,33 @@ def _passed(form, vn, tricks, stats=None):
         stats.nt(case)
 
 
+def _p_scores(B):
+    import importlib
+    sc = importlib.import_module('bridge_env.score')
+
+    def c(bid, x, xx, vul, decl):
+        return B.Contract(final_bid=B.Bid[bid], x=x, xx=xx, vul=B.Vul[vul], declarer=B.Player[decl])
+    return [lambda: [sc.calc_score(c('S4', False, False, 'NS', 'N'), 10), sc.calc_score(c('S4', False, False, 'NS', 'E'), 10),
+                     sc.calc_score(B.Contract(None, vul=B.Vul.EW), 0)],
+            lambda: [sc.calc_score(c('S4', False, False, 'NS', 'E'), 10), sc.calc_score(c('NT7', True, True, 'EW', 'W'), 0),
+                     sc.calc_score(c('C1', True, False, 'BOTH', 'S'), 9)]]
+
+
+def concurrent_programs():
+    from vf.props import _concurrent as CC
+    tr = tuple(f'/bridge_env/{m}.py' for m in ('score', 'contract', 'pair', 'player', 'vul', 'bid'))
+    return {'scores of two tables': (_p_scores, CC.same_as_alone, tr)}
+
+
 def run_shard(spec, seed, tier, stats):
+    if spec['kind'] == 'concurrent':
+        from vf.props import _concurrent as CC
+        try:
+            for name, (prog, oracle, tr) in concurrent_programs().items():
+                CC.explore(name, prog, oracle, stats, bound=1, orders=(0, 1), trace=tr, shard=spec['shard'], of=spec['of'])
+        except Violation as v:
+            return [v]
+        return []
     fails = {}
     try:
         if spec['kind'] == 'grid':
@@ -88,6 +115,9 @@ def run_shard(spec, seed, tier, stats):
 
 def replay(rec):
     c = rec['case']
+    if 'concurrent_program' in c:
+        from vf.props import _concurrent as CC
+        return CC.replay(rec, concurrent_programs())
     try:
         if 'passed_out_form' in c:
             _passed(c['passed_out_form'], c['vul'], c['tricks'])
